@@ -5,6 +5,7 @@ property's projection, and violations of the property found on the *real* code (
 replayable input).  Verdicts on real streams are given by the Lean monitor / Lean kernels.
 """
 import itertools
+import collections
 import random
 
 import core
@@ -146,11 +147,64 @@ def check_stream(prop, tier, seed, inputs=None):
                 res.samples.append({"input": list(x), "trace_head": r[:8], "actions": sum(1 for ln in r if ln.startswith("A "))})
     if prop in ("C01", "C12"):
         _twin_check(res, xs, real)
+    if prop == "C11" and inputs is None:
+        _c11_process(res, seed, 150 if tier == "quick" else 1500)
     res.nontrivial = seen
     res.rule = ("exhaustive parameter boxes per class + seeded random configurations + corpus; a case is "
                 "(class, parameters, finalisation point, passes); non-trivial = distinct projected real trace "
                 "that exercises the property's mechanism (checkpoint loads / a complete adjoint pass / >4 actions)")
     return res
+
+
+def c11_history_violation(h):
+    """C11 on the real code for one process history (fresh interpreter): every storage an object's actions touch must
+    be reported as used whenever it is asked, and no query may raise"""
+    ans = _proc_fresh_raw(h)
+    touched = {}
+    for ln, a in zip(h, ans):
+        w = ln.split()
+        if w[0] == "N" and a.startswith("A "):
+            aw = a.split(" | ")[0].split()
+            i = int(w[1])
+            if aw[1] == "F" and (aw[4] == "1" or aw[5] == "1") and aw[6] in ("R", "D"):
+                touched.setdefault(i, {}).setdefault(aw[6], a.split(" | ")[0])
+            elif aw[1] in ("C", "M"):
+                for st in aw[3:5]:
+                    if st in ("R", "D"):
+                        touched.setdefault(i, {}).setdefault(st, a.split(" | ")[0])
+    for j, (ln, a) in enumerate(zip(h, ans)):
+        w = ln.split()
+        if w[0] != "U" or a == "?obj":
+            continue
+        i = int(w[1])
+        if a == "U x":
+            return j, f"uses_storage_type({w[2]}) of object {i} raises (operation #{j} of the history)"
+        if a == "U 0" and w[2] in touched.get(i, {}):
+            return j, (f"object {i} answers uses_storage_type({w[2]}) = False at operation #{j} although its stream "
+                       f"contains {touched[i][w[2]]!r}")
+    return None
+
+
+def _c11_process(res, seed, count):
+    rng = random.Random(seed * 13 + 11)
+    hs = _proc_histories(rng, count)
+    full = []
+    for h in hs:
+        h = list(h)
+        nobj = sum(1 for ln in h if ln.startswith("C "))
+        for i in range(nobj):
+            h += [f"U {i} {t}" for t in "RDWN"]
+        full.append(h)
+    from concurrent.futures import ThreadPoolExecutor
+    with ThreadPoolExecutor(core.NPROC) as ex:
+        outs = list(ex.map(c11_history_violation, full))
+    for h, v in zip(full, outs):
+        if v is not None:
+            j, msg = v
+            small, v2 = _proc_shrink(h[:j + 1], v, budget=250, bad=lambda hh: c11_history_violation(hh) if hh else None)
+            res.viol(["proc-uses"] + small, v2[1])
+            break
+    res.stats["process_histories_C11"] = len(full)
 
 
 def _twin_check(res, xs, real):
@@ -251,6 +305,91 @@ def _pyk(task):
     return rtrace.py_kernel(task)
 
 
+def _trim_proc(h):
+    """drop the trailing `N i` lines after the object's EndReverse / StopIteration (they change nothing)"""
+    ans = _proc_fresh_raw(h)
+    last = 0
+    for j, a in enumerate(ans):
+        if not (a == "S" or a.startswith("?")):
+            last = j
+    return h[:last + 1]
+
+
+def proc_steps_violation(h):
+    """C06 on the real code in a fresh interpreter: every Mixed object of the history that runs to its EndReverse
+    performs optimal_steps_mixed(n, s) forward steps (optimum from the Lean table)"""
+    ans = _proc_fresh_raw(h)
+    specs = [ln.split()[1:] for ln in h if ln.startswith("C ")]
+    steps = {}
+    done = set()
+    for ln, a in zip(h, ans):
+        w = ln.split()
+        if w[0] == "N" and a.startswith("A "):
+            i = int(w[1])
+            aw = a.split(" | ")[0].split()
+            if aw[1] == "F":
+                steps[i] = steps.get(i, 0) + int(aw[3]) - int(aw[2])
+            if aw[1] == "ER":
+                done.add(i)
+    for i in sorted(done):
+        sp = specs[i]
+        if sp[0] != "MX":
+            continue
+        n, s_ = int(sp[1]), int(sp[2])
+        T = _table(core.kernel(f"optmixedtab {n} {s_ + 1}"))
+        want = T.get((n, s_))
+        if want and want != ["raise"] and steps.get(i, 0) != int(want[0]):
+            return (f"object {i} (MX {n} {s_} {sp[3]}) performs {steps.get(i, 0)} forward steps inside this history, "
+                    f"the mixed optimum for n={n}, s={s_} is {want[0]}")
+    return None
+
+
+def _argmin_reqs(seed, count):
+    """`argmin` (basic_functions.py) on its whole domain, not only on what today's callers pass: ties, large
+    magnitudes with small differences, infinities"""
+    rng = random.Random(seed * 7 + 3)
+    reqs = []
+    for _ in range(count):
+        k = rng.randint(1, 12)
+        mode = rng.random()
+        if mode < 0.35:
+            vals = [rng.randint(0, 6) for _ in range(k)]
+        elif mode < 0.8:
+            base = rng.choice([10 ** 5, 10 ** 7, 10 ** 9, 10 ** 12, 2 ** 40])
+            vals = [base + rng.randint(0, 3) for _ in range(k)]
+        else:
+            vals = [rng.choice([rng.randint(0, 50), "inf"]) for _ in range(k)]
+        words = " ".join(str(v) for v in vals)
+        reqs.append((f"argmin {words}", ("argmin",) + tuple(vals)))
+    return reqs
+
+
+def _bands_check(res, nmax):
+    """the cheap bands of the three cached kernels up to a large n, in one process, against the Lean tables"""
+    got = _pyk(("bands", nmax))
+    if got and got[0].startswith("H "):
+        res.harness_errors.append(("bands", got[0]))
+        return 0
+    tabs = {"HS": _table(core.kernel(f"memotab {nmax} {nmax + 2}")),
+            "HM": _table(core.kernel(f"optmixedtab {nmax} {nmax + 2}")),
+            "HE": _table(core.kernel(f"extratab {nmax} {nmax + 2}"))}
+    res.kernel_mismatches = getattr(res, "kernel_mismatches", [])
+    bad = 0
+    for ln in got:
+        w = ln.split()
+        want = tabs[w[0]].get((int(w[1]), int(w[2])))
+        if want != w[3:]:
+            bad += 1
+            if bad <= 20:
+                res.disagree(("kernel", f"bands {' '.join(w[:3])}"), f"impl={' '.join(w[3:])!r} model={' '.join(want or [])!r} "
+                                                                     "(one process, low band / high band / low band again)")
+            q = {"HS": "memotab", "HM": "optmixedtab", "HE": "extratab"}[w[0]]
+            if len(res.kernel_mismatches) < 5000:
+                res.kernel_mismatches.append((f"{q} {w[1]} {w[2]}", " ".join(w[1:]), " ".join(w[1:3] + (want or []))))
+    res.stats["band_values_compared"] = len(got)
+    return len(got)
+
+
 def _table(lines):
     d = {}
     for ln in lines:
@@ -316,6 +455,7 @@ def check_C05(tier, seed):
     # kernels: n_advance, optimal_extra_steps / optimal_steps_binomial
     kn = _sz(48, 128, 200, tier)
     reqs = [(f"extratab {kn} {kn + 1}", ("extratab", kn, kn + 1))]
+    reqs += _argmin_reqs(seed, _sz(300, 3000, 3000, tier))
     for traj in gen.TRAJ:
         for n in range(0, _sz(64, 160, 320, tier) + 1):
             reqs += [(f"nadv {n} {s} {traj}", ("nadv", n, s, traj)) for s in range(0, n + 2)]
@@ -400,6 +540,27 @@ def check_C06(tier, seed):
             nn, ss = int(u.split()[0]), int(u.split()[1])
             if nn >= 1 and min(1, nn - 1) <= ss:
                 extra.append((f"MX {nn} {ss} D 0", nn, 1))
+    if DEEP or tier != "quick":
+        nb = _sz(0, 300, 400, tier)
+        res.stats["kernel_values_compared"] += _bands_check(res, nb)
+        # a band value that differs in COST: replay the situation as a process history (few units first, then
+        # the schedule with that key) in a fresh interpreter and count the forward steps of the real stream
+        tried = 0
+        for q, u, v in getattr(res, "kernel_mismatches", []):
+            if tried >= 6:
+                break
+            if q.startswith("memotab") and u and v and u.split()[-1] != v.split()[-1] and len(u.split()) >= 5:
+                nn, ss = int(u.split()[0]), int(u.split()[1])
+                if nn >= 1 and min(1, nn - 1) <= ss:
+                    tried += 1
+                    for h in (["C MX %d 4 D 0" % nb, "N 0", "C MX %d %d D 0" % (nn, ss)],
+                              ["C MX %d %d D 0" % (nn, ss), "N 0", "C MX %d 4 D 0" % nb]):
+                        h = h + ["N 1"] * (6 * max(nn, nb) + 20) if h[2].endswith("%d %d D 0" % (nn, ss)) else \
+                            h[:2] + ["N 0"] * (6 * nn + 20) + [h[2]] + ["N 1"] * (6 * nb + 20)
+                        msg = proc_steps_violation(h)
+                        if msg:
+                            res.viol(["proc-steps"] + _trim_proc(h), msg)
+                            break
     extra = sorted(set(extra), key=lambda x: x[1])[:24]
     if extra:
         big = max(x[1] for x in extra)
@@ -542,6 +703,19 @@ def check_C07(tier, seed):
                 res.viol(x, f"DiskRevolve cost {cost[x[0]]} exceeds Revolve cost {cost[rvs]}")
             if pds in cost and cost[pds] < cost[x[0]]:
                 res.viol((pds, x[1], 1), f"PeriodicDiskRevolve cost {cost[pds]} below DiskRevolve optimum {cost[x[0]]}")
+    # the library's own cost accounting (Sequence.makespan) against the cost of its stream and the twin's makespan
+    ints = [s_ for s_ in cost if "." not in s_]
+    py = core.pool().map(_pyk, [("ops", s_) for s_ in ints], chunksize=16)
+    le = core.driver().ask_many([("ops " + s_, None) for s_ in ints])
+    for s_, a, b in zip(ints, py, le):
+        ma = [ln for ln in a if ln.startswith("makespan ")]
+        mb = [ln for ln in b if ln.startswith("makespan ")]
+        if ma != mb:
+            res.disagree((s_, int(s_.split()[1]), 1), f"Sequence.makespan: implementation {ma} vs operation-sequence twin {mb}")
+        elif ma and ma[0].split()[1] != str(cost[s_]):
+            res.disagree((s_, int(s_.split()[1]), 1), f"Sequence.makespan {ma[0].split()[1]} differs from the cost {cost[s_]} "
+                                                      "of the action stream generated from that sequence")
+    res.stats["makespans_compared"] = len(ints)
     # kernel tables
     kreq = []
     L = _sz(20, 40, 64, tier)
@@ -555,6 +729,7 @@ def check_C07(tier, seed):
         for c0 in (1, 2, 3):
             for c1 in (0, 1, 3):
                 kreq.append((f"hopt {L} {c0} {c1} {wd} {rd} {ub} {uf}", ("hopt", L, c0, c1, wd, rd, ub, uf)))
+    kreq += _argmin_reqs(seed, _sz(300, 3000, 3000, tier))
     res.stats["kernel_values_compared"] = _kernel_compare(res, kreq)
     res.evaluations = len(xs) + len(kreq)
     res.nontrivial = seen
@@ -760,14 +935,32 @@ def check_C13(tier, seed):
             reqs += [(f"nadv {n} {s_} {traj}", ("nadv", n, s_, traj)) for s_ in range(0, min(n, 8) + 2)]
     res.stats["kernel_values_compared"] = _kernel_compare(res, reqs)
     extra = []
-    for q, u, v in getattr(res, "kernel_mismatches", []):
-        w = q.split()
-        if w[0] == "nadv" and int(w[1]) >= 2 and int(w[2]) >= 1:
+    mm = [(q.split(), u) for q, u, v in getattr(res, "kernel_mismatches", [])]
+    mm = [(w, u) for w, u in mm if w[0] == "nadv" and int(w[1]) >= 2 and int(w[2]) >= 1]
+    if mm:
+        EK = lean_extra(max(int(w[1]) for w, _ in mm))
+
+        def harmful(w, u):
+            # is the implementation's step size still a minimiser of the Griewank-Walther recurrence?
+            n, k = int(w[1]), min(int(w[2]), int(w[1]) - 1)
+            try:
+                a = int(u)
+            except (TypeError, ValueError):
+                return True
+            if not (1 <= a <= n - 1):
+                return True
+            if k == 1:
+                return a != n - 1
+            return a + _E(EK, a, k) + _E(EK, n - a, k - 1) != _E(EK, n, k)
+        mm.sort(key=lambda t: (not harmful(*t), int(t[0][1])))
+        for w, u in mm:
             L, units = int(w[1]), int(w[2])
             for st in "RD":
                 extra.append((f"TL {L} {units - 1} {st} {w[3]}", L, 1))
                 extra.append((f"TL {L} {units - 1} {st} {w[3]}", 2 * L, 1))
-    extra = sorted(set(extra), key=lambda x: x[1])[:24]
+            if len(extra) >= 24:
+                break
+    extra = list(dict.fromkeys(extra))[:24]
     if extra:
         EE = lean_extra(max(int(x[0].split()[1]) for x in extra))
         rr = core.real_traces(extra)
@@ -805,6 +998,8 @@ def check_C13(tier, seed):
 def check_C14(tier, seed):
     res = Result("C14")
     nmax, smax = (20, 6) if tier == "quick" else (48, 8)
+    if DEEP:
+        nmax, smax = 72, 13
     rng = random.Random(seed + 77)
     ns = list(range(1, nmax + 1)) + [rng.randint(nmax + 1, 200 if tier == "quick" else 400) for _ in range(6 if tier == "quick" else 30)]
     xs = []
@@ -921,6 +1116,240 @@ def _mh(task):
     return rtrace.multi_history(task)
 
 
+def _ph(lines):
+    import rtrace
+    return rtrace.proc_history(lines)
+
+
+def _proc_norm(l):
+    if l.startswith("C X"):
+        return "C X"
+    if l.startswith("B"):
+        return "B" + (l[l.index(" | "):] if " | " in l else "")
+    return l
+
+
+def _near_twin(ln, rng):
+    w = ln.split()
+    k = w[1]
+    if k in ("RV", "DR", "PD", "HR"):
+        c = [int(v) for v in w[-4:]]
+        how = rng.randint(0, 3)
+        if how == 0:
+            c = [2 * v for v in c]
+        elif how == 1:
+            c[0] += rng.randint(1, 3)
+        elif how == 2:
+            c[1] += rng.randint(1, 3)
+        else:
+            c[2], c[3] = c[3] + rng.randint(0, 2), c[2] + rng.randint(0, 2)
+        return " ".join(w[:-4] + [str(v) for v in c])
+    if k == "MS":
+        how = rng.randint(0, 2)
+        if how == 0:
+            w[5] = "revolve" if w[5] == "maximum" else "maximum"
+        elif how == 1 and int(w[3]) > 0:
+            w[3], w[4] = str(int(w[3]) - 1), str(int(w[4]) + 1)
+        elif int(w[4]) > 0:
+            w[3], w[4] = str(int(w[3]) + 1), str(int(w[4]) - 1)
+        return " ".join(w)
+    if k == "MX":
+        if rng.random() < 0.5:
+            w[4] = "R" if w[4] == "D" else "D"
+        else:
+            w[5] = "1" if w[5] == "0" else "0"
+        return " ".join(w)
+    if k == "TL":
+        if rng.random() < 0.5:
+            w[4] = "R" if w[4] == "D" else "D"
+        else:
+            w[5] = "revolve" if w[5] == "maximum" else "maximum"
+        return " ".join(w)
+    if k == "SD":
+        w[2] = "1" if w[2] == "0" else "0"
+        return " ".join(w)
+    return ln
+
+
+def _proc_histories(rng, count):
+    hs = []
+    costs = ["1 1 2 2", "2 2 4 4", "2 3 1 4", "4 6 2 8", "3 1 5 2", "1 2 0 0", "2 4 0 0", "2 1 1 1"]
+    for _ in range(count):
+        lines = []
+        nobj = 0
+        twin = None
+        for _ in range(rng.randint(5, 120)):
+            c = rng.random()
+            if c < 0.10 or nobj == 0:
+                if twin is not None and rng.random() < 0.5:
+                    # an exact twin, or a near twin (one parameter changed: the classic missing-cache-key situation)
+                    lines.append(twin if rng.random() < 0.4 else _near_twin(twin, rng))
+                else:
+                    k = rng.choice(["MX", "MX", "MX", "MS", "MS", "SM", "SD", "TL", "RV", "DR", "PD", "HR", "NO"])
+                    if k == "MX":
+                        ln = f"C MX {rng.randint(0, 14)} {rng.randint(0, 5)} {rng.choice('RDRDW')} {rng.choice('001')}"
+                    elif k == "MS":
+                        ln = f"C MS {rng.randint(0, 12)} {rng.randint(0, 3)} {rng.randint(0, 3)} {rng.choice(['maximum', 'revolve'])}"
+                    elif k in ("SM", "NO"):
+                        ln = "C " + k
+                    elif k == "SD":
+                        ln = f"C SD {rng.randint(0, 1)}"
+                    elif k == "TL":
+                        ln = f"C TL {rng.randint(0, 5)} {rng.randint(0, 3)} {rng.choice('RD')} {rng.choice(['maximum', 'revolve'])}"
+                    elif k == "HR":
+                        ln = f"C HR {rng.randint(0, 10)} {rng.randint(0, 2)} {rng.randint(0, 2)} {rng.choice(costs)}"
+                    else:
+                        ln = f"C {k} {rng.randint(0, 12)} {rng.randint(0, 3)} {rng.choice(costs)}"
+                    lines.append(ln)
+                    if rng.random() < 0.5:
+                        twin = ln
+                nobj += 1
+            elif c < 0.74:
+                lines.append(f"N {rng.randint(0, nobj) if rng.random() < 0.03 else rng.randint(0, nobj - 1)}")
+            elif c < 0.80:
+                lines.append(f"F {rng.randint(0, nobj - 1)} {rng.randint(-1, 14)}")
+            elif c < 0.87:
+                lines.append(f"O {rng.randint(0, nobj - 1)}")
+            elif c < 0.92:
+                lines.append(f"U {rng.randint(0, nobj - 1)} {rng.choice('RDWN')}")
+            else:
+                lines.append(f"{rng.choice(['HE', 'HM', 'HS'])} {rng.randint(0, 14)} {rng.randint(0, 6)}")
+        hs.append(tuple(lines))
+    return hs
+
+
+def _own_history(h, i):
+    """the sub-history of object i (the i-th construct line), renumbered to object 0, and the positions kept"""
+    lines, pos = [], []
+    nobj = -1
+    for j, ln in enumerate(h):
+        w = ln.split()
+        if w[0] == "C":
+            nobj += 1
+            if nobj == i:
+                lines.append(ln)
+                pos.append(j)
+        elif w[0] in ("N", "F", "O", "U") and int(w[1]) == i and nobj >= i:
+            lines.append(" ".join([w[0], "0"] + w[2:]))
+            pos.append(j)
+    return lines, pos
+
+
+def _proc_fresh(lines):
+    import os
+    import subprocess
+    p = subprocess.run([core.PY, os.path.join(core.HERE, "proc_fresh.py")], input="\n".join(lines) + "\n",
+                       stdout=subprocess.PIPE, stderr=subprocess.DEVNULL, text=True,
+                       env=dict(os.environ, VERIF_REPO=core.REPO))
+    return [_proc_norm(x) for x in p.stdout.splitlines()]
+
+
+def _proc_fresh_raw(lines):
+    import os
+    import subprocess
+    p = subprocess.run([core.PY, os.path.join(core.HERE, "proc_fresh.py")], input="\n".join(lines) + "\n",
+                       stdout=subprocess.PIPE, stderr=subprocess.DEVNULL, text=True,
+                       env=dict(os.environ, VERIF_REPO=core.REPO))
+    return p.stdout.splitlines()
+
+
+def _proc_property_violation(h, real_answers, upto):
+    """C15 on the real code alone: the answers of every object touched up to op `upto` inside the history `h` against
+    the answers to its own operations in a fresh interpreter"""
+    objs = sorted({int(ln.split()[1]) for ln in h[:upto + 1] if ln.split()[0] in ("N", "F", "O", "U")})
+    for i in objs:
+        own, pos = _own_history(h[:upto + 1], i)
+        if not own or not own[0].startswith("C "):
+            continue
+        alone = _proc_fresh(own)
+        inside = [real_answers[j] for j in pos]
+        if alone != inside:
+            k = next((j for j in range(min(len(alone), len(inside))) if alone[j] != inside[j]), min(len(alone), len(inside)))
+            return (f"stream depends on history: object {i} ({own[0][2:]}) answers {inside[k] if k < len(inside) else None!r} to its "
+                    f"operation #{k} inside this history, {alone[k] if k < len(alone) else None!r} alone in a fresh interpreter")
+    return None
+
+
+def _proc_remove(h, j):
+    """history without line j; removing a construction removes the object's operations and renumbers the others"""
+    w = h[j].split()
+    if w[0] != "C":
+        return h[:j] + h[j + 1:]
+    i = sum(1 for ln in h[:j] if ln.startswith("C "))
+    out = []
+    for jj, ln in enumerate(h):
+        if jj == j:
+            continue
+        ww = ln.split()
+        if ww[0] in ("N", "F", "O", "U"):
+            t = int(ww[1])
+            if t == i:
+                continue
+            if t > i:
+                ww[1] = str(t - 1)
+            out.append(" ".join(ww))
+        else:
+            out.append(ln)
+    return out
+
+
+def _proc_shrink(h, v, budget=400, bad=None):
+    def bad_c15(hh):
+        if not hh:
+            return None
+        a = [_proc_norm(x) for x in _proc_fresh_raw(hh)]
+        return _proc_property_violation(hh, real_answers=a, upto=len(hh) - 1)
+    bad = bad or bad_c15
+    cur, curv = h, v
+    tries = 0
+    progress = True
+    while progress and tries < budget:
+        progress = False
+        j = len(cur) - 2          # the last line is the failing operation
+        while j >= 0 and tries < budget:
+            cand = _proc_remove(cur, j)
+            tries += 1
+            vv = bad(cand)
+            if vv is not None:
+                cur, curv = cand, vv
+                progress = True
+            j = min(j - 1, len(cur) - 2)
+    return cur, curv
+
+
+def _c15_process(res, rng, count):
+    """process-level model (Model/Process.lean, theorems C15_process / C15_equal_params / C15_observers) against the
+    real library: the same interleaved history of constructions, next/finalize, observer reads and helper calls"""
+    hs = _proc_histories(rng, count)
+    # every history starts in a fresh interpreter: the answers then depend on nothing but the history (replayable)
+    from concurrent.futures import ThreadPoolExecutor
+    with ThreadPoolExecutor(core.NPROC if hasattr(core, "NPROC") else 16) as ex:
+        real = list(ex.map(lambda h: _proc_fresh_raw(list(h)), hs))
+    model = core.driver().ask_many([("proc", list(h) + ["ENDPROC"]) for h in hs])
+    nops = 0
+    kinds = collections.Counter()
+    for h, a, b in zip(hs, real, model):
+        nops += len(h)
+        for ln in h:
+            kinds[ln.split()[0]] += 1
+        a = [_proc_norm(x) for x in a]
+        b = [_proc_norm(x) for x in b]
+        if a != b:
+            k = next((j for j in range(min(len(a), len(b))) if a[j] != b[j]), min(len(a), len(b)))
+            res.disagree(["proc"] + list(h[:k + 1]),
+                         f"process history: op {k} {h[k] if k < len(h) else None!r} answers "
+                         f"{a[k] if k < len(a) else None!r} (implementation) vs "
+                         f"{b[k] if k < len(b) else None!r} (process model)")
+            # is it the PROPERTY that fails?  the object's own operations, alone, in a fresh interpreter
+            v = _proc_property_violation(h, real_answers=a, upto=k)
+            if v is not None:
+                small, v = _proc_shrink(list(h[:k + 1]), v)
+                res.viol(["proc"] + small, v)
+    res.stats["process_histories"] = len(hs)
+    res.stats["process_ops"] = nops
+    res.stats["process_op_kinds"] = dict(kinds)
+
+
 def check_C15(tier, seed):
     res = Result("C15")
     rng = random.Random(seed * 31 + 5)
@@ -995,9 +1424,10 @@ def check_C15(tier, seed):
                 seen.add((spec, nfin, len(objs)))
         if len(res.samples) < 2:
             res.samples.append({"objects": [list(o) for o in objs], "schedule_head": [list(s) for s in sched[:12]]})
+    _c15_process(res, rng, 300 if tier == "quick" else 3000)
     if tier != "quick":
         _c15_fresh(res, rng, pool_specs)
-    res.evaluations = len(tasks) + len(ref_inputs)
+    res.evaluations = len(tasks) + len(ref_inputs) + res.stats.get("process_histories", 0)
     res.nontrivial = seen
     res.rule = ("seeded histories: 2-7 live objects of mixed classes/parameters (with twins of equal parameters), random "
                 "interleaving of constructions, next() and observer calls; each object's stream compared with its history-free "
